@@ -24,7 +24,7 @@ RULE = ("histories of 1-8 operations on one Grid: initial (extent,gpts,sampling)
         "on a fully defined grid; distinct = distinct history signature")
 CLAUSES = ["consistency", "reciprocal-sampling", "locks", "consistency-after-raise", "pipeline-invariant"]
 QUICK = dict(n=6000, time=45)
-THOROUGH = dict(n=400000, time=300, shards=16)
+THOROUGH = dict(n=1430270, time=480, shards=16)
 
 REL = 1e-9
 
